@@ -49,9 +49,6 @@ func (ctx *Ctx) cloop(node *node, tpl *Tpl, w io.Writer) {
 			ctx.Err = ErrWrongLoopCond
 			break
 		}
-		// Check breakN signal from child loop.
-		allowIter = allowIter && ctx.brkD == 0
-
 		if !allowIter {
 			break
 		}
@@ -66,7 +63,7 @@ func (ctx *Ctx) cloop(node *node, tpl *Tpl, w io.Writer) {
 		c++
 		// Loop over child nodes with square brackets check in paths.
 		ctx.chQB = true
-		var err, lerr error
+		var err error
 		child := node.child
 		if len(child) > 0 && child[0].typ == typeCondTrue {
 			child = child[0].child
@@ -74,9 +71,6 @@ func (ctx *Ctx) cloop(node *node, tpl *Tpl, w io.Writer) {
 		for i := 0; i < len(child); i++ {
 			ch := &child[i]
 			err = tpl.writeNode(w, ch, ctx)
-			if err == ErrLBreakLoop {
-				lerr = err
-			}
 			if err == ErrBreakLoop || err == ErrContLoop {
 				break
 			}
@@ -96,15 +90,11 @@ func (ctx *Ctx) cloop(node *node, tpl *Tpl, w io.Writer) {
 			break
 		}
 
-		// Handle break/continue cases.
-		if err == ErrBreakLoop || lerr == ErrLBreakLoop {
-			if ctx.brkD > 0 {
-				ctx.brkD--
-			}
+		// Handle break/lazybreak cases: the instruction (or a child loop) left the number of loops to end in brkD.
+		// This loop is one of them.
+		if ctx.brkD > 0 {
+			ctx.brkD--
 			break
-		}
-		if err == ErrContLoop {
-			continue
 		}
 	}
 
